@@ -1,6 +1,7 @@
 package core
 
 import (
+	"errors"
 	"fmt"
 
 	"github.com/junioryono/godi/v4"
@@ -46,6 +47,53 @@ func vaNewServerOnly(opts ...*VaOpt) (*vaServer, error) {
 
 // RunVariadic: {leading plain parameter, variadic only} x consumer lifetimes x provider lifetimes (valid pairs).
 func RunVariadic(c *eng.Ctx, prop string, next func() (int, bool)) {
+	// the slice type the variadic parameter stands for is NOT registered: a required dependency is
+	// missing - Build refuses, or (whatever it decides) what it accepts does not fail with
+	// "service not found" when resolved from a fresh scope
+	if prop == "C08" {
+		for _, form := range []string{"plain+variadic", "variadic-only"} {
+			for _, life := range []godi.Lifetime{godi.Singleton, godi.Scoped, godi.Transient} {
+				idx, mine := next()
+				if !mine {
+					continue
+				}
+				c.R.Begin(idx)
+				feat := form + ":" + lifeName(life) + ":slice-type-not-registered"
+				func() {
+					vaCur = &vaWorld{}
+					coll := godi.NewCollection()
+					if err := coll.AddSingleton(vaNewDep); err != nil {
+						panic(err)
+					}
+					var err error
+					if form == "plain+variadic" {
+						err = eqAdd(coll, life, vaNewServer)
+					} else {
+						err = eqAdd(coll, life, vaNewServerOnly)
+					}
+					if err != nil {
+						return // refused at registration: nothing is promised
+					}
+					c.R.Count("variadic_constructor_cases", 1)
+					prov, err := coll.Build()
+					if err != nil {
+						return
+					}
+					defer prov.Close()
+					sc, err := prov.CreateScope(nil)
+					if err != nil {
+						return
+					}
+					defer sc.Close()
+					if _, err := godi.Resolve[*vaServer](sc); err != nil && errors.Is(err, godi.ErrServiceNotFound) {
+						c.R.Violation(eng.Violation{Prop: "C08", Clause: "not-found-after-build", Sig: "C08/not-found-after-build:variadic-constructor:" + feat, Case: idx, CaseID: "variadic-" + feat,
+							Detail: feat + ": Build succeeded, and resolving the registered service from a fresh scope fails with 'service not found': " + trimErr(err), Replay: map[string]any{"fixture": "variadic-constructor", "form": form, "lifetime": lifeName(life), "slice_registered": false}})
+					}
+				}()
+				c.R.End(idx, eng.Hash("variadic-missing", feat), true)
+			}
+		}
+	}
 	for _, form := range []string{"plain+variadic", "variadic-only"} {
 		for _, life := range []godi.Lifetime{godi.Singleton, godi.Scoped, godi.Transient} {
 			for _, optLife := range []godi.Lifetime{godi.Singleton, godi.Transient} {
